@@ -1,4 +1,5 @@
 import CssVerif.Lemmas.TokFull
+import CssVerif.Lemmas.TokLex2Sep
 /-!
 # Lexeme separation in full-sheet mode: no completion happens on a rendered lexeme list, so the tokens are those of
 partial-sheet mode followed by the end marker.
